@@ -23,6 +23,7 @@ from contracts import common as K
 from contracts import envs as E
 
 ENV = "BinPack"
+PROPS = ("C01", "C04", "C05", "C06", "C08", "C11", "C12")  # properties this module has clauses for
 COORDS = ("x1", "x2", "y1", "y2", "z1", "z2")
 
 
@@ -309,12 +310,22 @@ def problems(env, cfg, tier):
             "C11.variant_bounded": (num_unplaced(s) >= 1) & (num_unplaced(s) <= I),
             "C11.never_earlier": ~last | ~ok | ~jnp.any(s2.action_mask),  # s2.action_mask == legal(s2): C04.cached_mask_is_the_mask
             "C11.never_later": last | jnp.any(s2.action_mask),
+            # special case of never_later whose refutation needs no EMS geometry (keeps a counterexample search cheap)
+            "C11.never_later_when_every_valid_item_is_packed": last | ~jnp.all(s2.items_placed | ~s2.items_mask),
             "canary.no_item_is_ever_packed": (s2.items_placed == s.items_placed).all(),
         }
         if dense:
             out["C08.dense_reward_is_utilisation_increment"] = ts.reward == utilisation(s2) - utilisation(s)
         else:
             out["C08.sparse_reward_is_final_utilisation"] = ts.reward == jnp.where(last, utilisation(s2), 0.0)
+        # special case (unit cubes: all products are constants) of the two clauses above, cheap to refute when they are wrong
+        it = s.items
+        unit = jnp.all((it.x_len == 1) & (it.y_len == 1) & (it.z_len == 1))
+        cnt = lambda st: jnp.sum(st.items_placed.astype(jnp.float32))
+        if dense:
+            out["C08.dense_reward_unit_items_case"] = ~unit | (ts.reward == (cnt(s2) - cnt(s)) / container_volume(s))
+        else:
+            out["C08.sparse_reward_unit_items_case"] = ~unit | (ts.reward == jnp.where(last, cnt(s2) / container_volume(s), 0.0))
         out["C08.extras_report_the_utilisation"] = ts.extras["volume_utilization"] == utilisation(s2)
         for k, v in frame_fields(s, s2).items():
             if k not in ORDER:
@@ -474,6 +485,33 @@ def problems(env, cfg, tier):
     mask_fn = dict(title=f"BinPack._get_action_mask@{cfg}", args=(obs_ems0, state.ems_mask[:O], state.items, state.items_mask, state.items_placed),
                    requires=None, ensures=mask_ens, props=("C04",), targets=[T._get_action_mask])
 
+    # function-level contracts of the reward classes (C08 anchors), for arbitrary (state, action, next_state, is_valid, is_done)
+    def rew_req(s, a, s2, valid, done):
+        return {"in_spec": E.in_spec(env, a), "container": instance_wellformed(env, s)["container_is_the_configured_one"],
+                "next_container": instance_wellformed(env, s2)["container_is_the_configured_one"],
+                "item_dims": instance_wellformed(env, s)["item_dims_within_container"],
+                "next_item_dims": instance_wellformed(env, s2)["item_dims_within_container"]}
+
+    def rew_ens(s, a, s2, valid, done):
+        r = env.reward_fn(s, a, s2, valid, done)
+        unit = lambda st: jnp.all((st.items.x_len == 1) & (st.items.y_len == 1) & (st.items.z_len == 1))
+        if dense:
+            chosen = a[1] == jnp.arange(I)
+            out = {"C08.DenseReward_is_item_volume_over_container_volume_if_valid":
+                       r == jnp.where(valid, jnp.sum(item_volumes(s) * chosen) / container_volume(s), 0.0),
+                   "C08.DenseReward_unit_items_case": ~unit(s) | (r == jnp.where(valid, 1.0 / container_volume(s), 0.0)),
+                   "C05.DenseReward_zero_if_invalid": valid | (r == 0.0)}
+        else:
+            out = {"C08.SparseReward_is_next_utilisation_if_done_else_zero": r == jnp.where(done, utilisation(s2), 0.0),
+                   "C08.SparseReward_unit_items_case": ~unit(s2) | (r == jnp.where(done, jnp.sum(s2.items_placed.astype(jnp.float32))
+                                                                                    / container_volume(s2), 0.0)),
+                   "C05.SparseReward_is_utilisation_of_the_untouched_state_if_invalid": ~done | (r == utilisation(s2))}
+        out["canary.reward_is_always_zero"] = r == 0.0
+        return out
+
+    reward_fn = dict(title=f"BinPack.{type(env.reward_fn).__name__}@{cfg}", args=(state, a, state, jnp.asarray(True), jnp.asarray(True)),
+                     requires=rew_req, ensures=rew_ens, props=("C05", "C08"), targets=[type(env.reward_fn).__call__])
+
     # reset with the generator as a contract boundary (while loop + samplers; its post-condition is C10's obligation)
     def gen_post(g, key):
         c = box(g.container)
@@ -502,4 +540,4 @@ def problems(env, cfg, tier):
     reset = dict(title=f"BinPack.reset@{cfg}", args=(state, jax.random.PRNGKey(0)), requires=gen_post, ensures=reset_ens, workers=4,
                  targets=[T.reset, T._make_observation_and_extras],
                  note="generator replaced by its post-condition (contract boundary; the generator's own contract is C10)")
-    return [step, order, order_frame, geo, space, mask_fn, reset]
+    return [step, order, order_frame, geo, space, mask_fn, reward_fn, reset]
